@@ -6,6 +6,7 @@ package telemetry
 //   Start, Config, telemetryChildVar, telemetryUploadVar, acquireUploadToken.
 
 import (
+	"bytes"
 	"encoding/json"
 	"fmt"
 	"os"
@@ -94,6 +95,7 @@ type c16Row struct {
 	Text   int    // which spelling of the mode file (see c16ModeTexts); 0 = the plain one
 	Start  int    // Config.UploadStartTime in days from now (0: not set)
 	Debug  int    // 0: no debug directory; 1: an empty one (the user asked for logs); 2: one that has a sidecar.log already
+	Zone   int    // 0: the environment's zone; 1: a zone whose clocks went forward an hour 12 hours ago; 2: back an hour 12 hours ago
 }
 
 // c16ModeTexts: spellings of a mode file that all read as the same mode (the mode is the first word;
@@ -119,7 +121,7 @@ func (r c16Row) modeText() string {
 }
 
 func (r c16Row) String() string {
-	return fmt.Sprintf("marker=%s crash=%v upload=%v mode=%s(%q) token=%s dir=%s uploadStart=%+dd debugDir=%d", r.Marker, r.Crash, r.Upload, r.Mode, r.modeText(), r.Token, r.Dir, r.Start, r.Debug)
+	return fmt.Sprintf("marker=%s crash=%v upload=%v mode=%s(%q) token=%s dir=%s uploadStart=%+dd debugDir=%d zone=%d", r.Marker, r.Crash, r.Upload, r.Mode, r.modeText(), r.Token, r.Dir, r.Start, r.Debug, r.Zone)
 }
 
 // c16Model: how many children the row must launch, and with which upload flag.
@@ -259,6 +261,17 @@ func c16RunRow(t c16Fataler, base, exe string, r c16Row) {
 	case "other":
 		env = append(env, telemetryChildVar+"=3")
 	}
+	if r.Zone != 0 {
+		// the process's local zone had a clock change twelve hours ago: a calendar day back from now is 23 (or 25)
+		// hours long there; the token's 24 hours are elapsed time
+		zf := filepath.Join(root, "zone.tzif")
+		before, after := -5*3600, -4*3600
+		if r.Zone == 2 {
+			before, after = -4*3600, -5*3600
+		}
+		os.WriteFile(zf, c16ZoneFile(time.Now().Add(-12*time.Hour), before, after), 0666)
+		env = append(env, "TZ="+zf)
+	}
 	cmd.Env = env
 	cmd.Stdin = nil // /dev/null: a directly started telemetry child sees EOF on its crash pipe at once
 	cmd.Run()
@@ -384,12 +397,12 @@ func c16AllRows() []c16Row {
 									continue // the start time only matters to upload-enabled starts
 								}
 								// (the debug directory is not a dimension of the table: its three states are dealt out in turn)
-								rows = append(rows, c16Row{m, crash, up, mode, tok, "ok", v, st, len(rows) % 3})
+								rows = append(rows, c16Row{m, crash, up, mode, tok, "ok", v, st, len(rows) % 3, len(rows) / 3 % 3})
 							}
 						}
 					}
 				}
-				rows = append(rows, c16Row{m, crash, up, "missing", "absent", "uncreatable", 0, 0, 0})
+				rows = append(rows, c16Row{m, crash, up, "missing", "absent", "uncreatable", 0, 0, 0, 0})
 			}
 		}
 	}
@@ -431,6 +444,7 @@ func TestVerifC16Rows(t *testing.T) {
 		}
 		if r.Dir == "ok" {
 			r.Debug = rapid.IntRange(0, 2).Draw(t, "debugDir")
+			r.Zone = rapid.SampledFrom([]int{0, 0, 1, 1, 2}).Draw(t, "zone")
 		}
 		c16RunRow(t, base, exe, r)
 		launch, _ := c16Model(r)
@@ -460,4 +474,24 @@ func TestVerifC16Table(t *testing.T) {
 		vstats.Case(r.String(), true, fmt.Sprintf("launch:%v", launch), "table")
 	}
 	vstats.Note("table_rows_total", int64(len(c16AllRows())))
+}
+
+// c16ZoneFile returns a time zone file (TZif, version 1) for a zone at offset before seconds
+// that changes to offset after at the given instant.
+func c16ZoneFile(at time.Time, before, after int) []byte {
+	var b bytes.Buffer
+	be32 := func(v int32) { b.Write([]byte{byte(v >> 24), byte(v >> 16), byte(v >> 8), byte(v)}) }
+	b.WriteString("TZif")
+	b.Write(make([]byte, 16))                     // version 1, reserved
+	for _, n := range []int32{0, 0, 0, 1, 2, 8} { // isutcnt, isstdcnt, leapcnt, timecnt, typecnt, charcnt
+		be32(n)
+	}
+	be32(int32(at.Unix()))
+	b.WriteByte(1) // the transition leads to type 1
+	be32(int32(before))
+	b.Write([]byte{0, 0})
+	be32(int32(after))
+	b.Write([]byte{1, 4})
+	b.WriteString("AAA\x00BBB\x00")
+	return b.Bytes()
 }
